@@ -460,6 +460,10 @@ func formatHour(t time.Time, marker *variableMarker, hour12 bool) (string, error
 	if hour12 && h > 12 {
 		h -= 12
 	}
+	if hour12 && h == 0 {
+		// The hour after midnight is 12 on the 12-hour clock.
+		h = 12
+	}
 	return formatIntegerComponent(h, marker)
 }
 
